@@ -9,17 +9,19 @@ if [ -z "$CHECK_ONLY" ]; then
 git -C /repo worktree add -q $WT HEAD || exit 2
 cleanup() { git -C /repo worktree remove --force $WT >/dev/null 2>&1; rm -rf $WT; }
 trap cleanup EXIT
-cp $M/demo_test.go $WT/zz_demo_test.go
+PKGDIR=.
+if head -20 $M/demo_test.go | grep -q "^package mocks"; then PKGDIR=./mocks; fi
+cp $M/demo_test.go $WT/$PKGDIR/zz_demo_test.go
 RUN=$(grep -oE "^func (Test[A-Za-z0-9_]+)" $M/demo_test.go | sed "s/func //" | paste -sd"|")
 RUN="^(${RUN})\$"
 echo "== demo on clean tree"
-(cd $WT && go test -vet=off -count=1 -timeout 120s -run "$RUN" . 2>&1 | tail -3)
+(cd $WT && go test -vet=off -count=1 -timeout 120s -run "$RUN" $PKGDIR 2>&1 | tail -3)
 CLEAN=${PIPESTATUS[0]}
 (cd $WT && git apply $M/patch.diff) || { echo "PATCH DOES NOT APPLY"; exit 3; }
 echo "== build with mutant"; (cd $WT && go build ./... ) || { echo "DOES NOT COMPILE"; exit 3; }
 echo "== demo with mutant"
-(cd $WT && go test -vet=off -count=1 -timeout 120s -run "$RUN" . 2>&1 | tail -3)
-rm -f $WT/zz_demo_test.go
+(cd $WT && go test -vet=off -count=1 -timeout 120s -run "$RUN" $PKGDIR 2>&1 | tail -3)
+rm -f $WT/$PKGDIR/zz_demo_test.go
 if [ -z "$SKIP_SUITE" ]; then
 echo "== existing suite with mutant"
 (cd $WT && go test -vet=off -count=1 . ./mocks/ 2>&1 | tail -3)
